@@ -3,8 +3,8 @@ package sim
 import (
 	"fmt"
 	"os"
-	"testing"
 	"strings"
+	"testing"
 
 	"verif/harness/report"
 )
